@@ -957,7 +957,8 @@ package gorums
 //@   opt effect-tags=C18.b
 
 // C06.f / C10.b: no request is given up (answered with an error without a send attempt) or sent
-// unless, for this very request, the sender either saw the node connected or tried to (re)connect.
+// unless, for this very request, the sender either saw the node connected (through isConnected, or by
+// reading both flags itself: established and not broken) or tried to (re)connect.
 //@ func (*channel).sender
 //@   props C03 C05 C06 C07 C10 C12 C18
 //@   mode concurrent
@@ -965,6 +966,8 @@ package gorums
 //@   ghost pending Bool = false
 //@   ghost tried Bool = false
 //@   ghost sawUp Bool = false
+//@   ghost sawEst Bool = false
+//@   ghost sawNB Bool = false
 //@   ghost drained Bool = false
 //@   ghost cur request = zero("request")
 //@   loop "for {"
@@ -975,9 +978,15 @@ package gorums
 //@     set pending = true
 //@     set tried = false
 //@     set sawUp = false
+//@     set sawEst = false
+//@     set sawNB = false
 //@     set cur = r
-//@   on call "c.isConnected"
+//@   on call? "c.isConnected"
 //@     after set sawUp = res0
+//@   on call? "c.connEstablished.get"
+//@     after set sawEst = res0
+//@   on call? "c.streamBroken.get"
+//@     after set sawNB = sawNB || !res0
 //@   on call "c.failQueued"
 //@     assert[C12.d] !pending && nolocks()
 //@     after set drained = true
@@ -988,11 +997,11 @@ package gorums
 //@     after set tried = true
 //@   on call "c.routeResponse"
 //@     assert[C07.b] pending && arg0 == cur.msg.Metadata.MessageID && arg1.nid == c.node.id && arg1.err != nil && arg1.msg == nil
-//@     assert[C06.f,C10.b] tried || sawUp
+//@     assert[C06.f,C10.b] tried || sawUp || (sawEst && sawNB)
 //@     set pending = false
 //@   on call "c.sendMsg"
 //@     assert[C03.b] pending && arg0 == cur
-//@     assert[C06.f,C10.b] tried || sawUp
+//@     assert[C06.f,C10.b] tried || sawUp || (sawEst && sawNB)
 //@     after set pending = pending && res0 != nil
 //@   blocks until c.parentCtx
 //@   opt effect-tags=C12.a
@@ -1026,6 +1035,7 @@ package gorums
 //@     after set cancelled = 0
 //@   on call "c.routeResponse"
 //@     assert[C05.a] arg0 == resp.Metadata.MessageID && arg1.msg == resp.Message
+//@     assert[C07.c] arg1.err == errOfStatus(statusOfProto(resp.Metadata.Status))
 //@     assert[C05.b] arg1.nid == c.node.id
 //@     assert[C09.b] nolocks()
 //@   blocks until c.parentCtx
@@ -1337,9 +1347,16 @@ package gorums
 //@   ensures[C14.d] forall(b, forall(k, b != base(m.nodes) ==> elems("*RawNode")[b][k] == old(elems("*RawNode")[b][k])))
 
 //@ func (*RawManager).AddNode
-//@   props C14
+//@   props C14 C12 C18
 //@   nopanic C14
 //@   requires m != nil && node != nil
+//@   ghost dupChecked Bool = false
+//@   ghost dupFound Bool = false
+//@   on call "m.Node"
+//@     after set dupChecked = arg0 == node.id
+//@     after set dupFound = res1
+//@   on call "node.connect"
+//@     assert[C12.e] dupChecked && !dupFound && arg0 == m
 //@   ensures[C14.f] result == nil ==> !old(in(node.id, m.lookup)) && in(node.id, m.lookup) && m.lookup[node.id] == node
 //@   ensures[C14.f] result == nil ==> forall(id, id != node.id ==> (in(id, m.lookup) <==> old(in(id, m.lookup))) && (in(id, m.lookup) ==> m.lookup[id] == old(m.lookup[id])))
 //@   ensures[C14.f] result == nil ==> len(m.nodes) == old(len(m.nodes)) + 1 && m.nodes[len(m.nodes)-1] == node
@@ -1352,6 +1369,26 @@ package gorums
 //@   ensures[C14.d] base(m.nodes) == old(base(m.nodes)) || !wasalloc(base(m.nodes))
 //@   ensures[C14.d] forall(b, forall(k, b != old(base(m.nodes)) && wasalloc(b) ==> elems("*RawNode")[b][k] == old(elems("*RawNode")[b][k])))
 //@   ensures[C14.f] forall(n, "*RawNode", wasalloc(n) ==> n.id == old(n.id) && n.addr == old(n.addr))
+
+// C12.e / C18.c: a node is connected (channel, goroutines, connection) only after the duplicate check
+// has accepted it - a refused node would keep them and Close never reaches it; dial closes the
+// connection it replaces and stores the one it made.
+//@ func (*RawNode).dial
+//@   props C12 C18
+//@   requires n != nil
+//@   ghost hadConn Bool = false
+//@   ghost closedOld Bool = false
+//@   ghost dialed Int = 0
+//@   on call "n.conn.Close"
+//@     assert[C18.c] recv == old(n.conn) && !closedOld
+//@     set closedOld = true
+//@   on call "grpc.DialContext"
+//@     assert[C18.c] old(n.conn) != nil ==> closedOld
+//@     assert[C12.e] arg1 == n.addr
+//@     after set dialed = res0
+//@   ensures[C18.c] n.conn == dialed
+//@   ensures[C18.c] old(n.conn) != nil ==> closedOld
+//@   opt optional-hooks=1
 
 //@ func (*RawNode).connect
 //@   props C14 C12
